@@ -174,6 +174,17 @@ impl World for Tok {
         format!("auth-{:?}{}", self.flavour, if self.thorough { "-t" } else { "" })
     }
 
+    fn seeds(&self) -> usize {
+        if matches!(self.flavour, Flavour::Vault(_)) {
+            2
+        } else {
+            1
+        }
+    }
+    fn seed_name(&self, s: usize) -> String {
+        ["empty", "operator C holds a share allowance of A that ends at the next ledger while its storage entry lives on (it replaced a long-lived approval)"][s].into()
+    }
+
     fn fresh(&self, _seed: usize) -> (Inst, Model) {
         let e = envx::mk_env(100);
         let u = [Address::generate(&e), Address::generate(&e), Address::generate(&e)];
@@ -235,8 +246,19 @@ impl World for Tok {
             }
         };
         let i = Inst { e, c, u, bystander, asset };
+        let mut allow = [[(0, 0); N]; N];
+        if let (1, Flavour::Vault(off)) = (_seed, self.flavour) {
+            let now = envx::now(&i.e);
+            let max = i.e.ledger().max_live_until_ledger();
+            let amt = 2 * 10i128.pow(off);
+            // a long-lived approval, then replaced by one that ends at the next ledger: the temporary entry
+            // keeps the long lifetime (lifetimes are only ever extended), the allowance does not
+            call_mocked(&i.e, &i.c, "approve", (i.u[0].clone(), i.u[2].clone(), amt, max).into_val(&i.e)).expect("seed approve (long)");
+            call_mocked(&i.e, &i.c, "approve", (i.u[0].clone(), i.u[2].clone(), amt, now + 1).into_val(&i.e)).expect("seed approve (short)");
+            allow[0][2] = (amt, now + 1);
+        }
         let obs = self.observe(&i).expect("observe seed");
-        (i, Model { obs, allow: [[(0, 0); N]; N], aallow: [[(0, 0); N]; N] })
+        (i, Model { obs, allow, aallow: [[(0, 0); N]; N] })
     }
 
     fn ops(&self, i: &Inst, m: &Model, _d: usize) -> Vec<Op> {
